@@ -127,12 +127,24 @@ pub fn facts(v: Proto, datagram: &[u8], request: &[u8], pinned: &[u8]) -> Value 
 pub struct ClientRun { pub exit: i32, pub stdout: String, pub stderr: String, pub requests: Vec<Vec<u8>> }
 
 /// Run the real client; `respond(k, request) -> Option<datagram>` is called for the k-th request received.
+/// How the next client processes are run (the printed instant must not depend on it):
+///   0  UTC output (-z), server addressed as 127.0.0.1
+///   1  local-time output (no -z) in the fixed-offset zone TZ=EST5
+///   2  local-time output in a zone with daylight-saving rules (TZ=NZST-12NZDT,M9.5.0,M4.1.0/3)
+///   3  UTC output; the server is addressed as 127.0.0.2 and answers from its wildcard-bound socket, so the reply's
+///      source address (127.0.0.1) is not the address the request was sent to
+pub static CLIENT_ENV_MODE: std::sync::atomic::AtomicUsize = std::sync::atomic::AtomicUsize::new(0);
+
 pub fn run_client(client_bin: &str, v: Proto, key: Option<String>, nreq: usize, extra: &[&str], sock: &UdpSocket,
                   respond: &mut dyn FnMut(usize, &[u8]) -> Option<Vec<u8>>) -> ClientRun {
     let port = sock.local_addr().unwrap().port();
+    let mode = CLIENT_ENV_MODE.load(std::sync::atomic::Ordering::Relaxed);
     let mut cmd = Command::new(client_bin);
-    cmd.arg("127.0.0.1").arg(port.to_string()).arg("-p").arg(if v == Proto::Google { "0" } else { "13" })
-        .arg("-n").arg(nreq.to_string()).arg("-t").arg("2").arg("-z").arg("-j").arg("-f").arg("%s.%f");
+    cmd.arg(if mode == 3 { "127.0.0.2" } else { "127.0.0.1" }).arg(port.to_string()).arg("-p").arg(if v == Proto::Google { "0" } else { "13" })
+        .arg("-n").arg(nreq.to_string()).arg("-t").arg("2").arg("-j").arg("-f").arg("%s.%f");
+    if mode == 0 || mode == 3 { cmd.arg("-z"); }
+    if mode == 1 { cmd.env("TZ", "EST5"); }
+    if mode == 2 { cmd.env("TZ", "NZST-12NZDT,M9.5.0,M4.1.0/3"); }
     if let Some(k) = &key { cmd.arg("-k").arg(k); }
     for e in extra { cmd.arg(e); }
     cmd.env("RUST_BACKTRACE", "0").stdin(Stdio::null()).stdout(Stdio::piped()).stderr(Stdio::piped());
@@ -223,7 +235,10 @@ fn from_recipe(v: Proto, r: &Value, request: &[u8], keys: &Keys, old: &Old, midp
     let dele_of = |d: &Value| -> Vec<u8> {
         let pubk = interp::pk_of_seed(keys.by_name(d["pubk"].as_str().unwrap()).unwrap());
         let m = match v { Proto::Google => midp, Proto::Ietf => midp };
-        match d["win"].as_str().unwrap() { "starts_after" => enc_dele(&pubk, m + 1, u64::MAX), "ends_before" => enc_dele(&pubk, 0, m.saturating_sub(1)), _ => enc_dele(&pubk, 0, u64::MAX) }
+        match d["win"].as_str().unwrap() { "starts_after" => enc_dele(&pubk, m + 1, u64::MAX), "ends_before" => enc_dele(&pubk, 0, m.saturating_sub(1)),
+            "inverted_lo" => enc_dele(&pubk, m.saturating_sub(10), m.saturating_sub(20)),     // MAXT < MINT <= midpoint
+            "inverted_hi" => enc_dele(&pubk, m.saturating_add(20), m.saturating_add(10)),     // midpoint <= MAXT < MINT
+            _ => enc_dele(&pubk, 0, u64::MAX) }
     };
     let mut srep_of = |s: &Value, rng: &mut Rng| -> Vec<u8> {
         let sv = if s["ver"] == "G" { Proto::Google } else { Proto::Ietf };
@@ -349,6 +364,7 @@ pub fn record(out_path: &str, client_bin: &str, seed: u64, tier: &str) {
     let keys = Keys::new(&mut rng);
     let pinned = interp::pk_of_seed(&keys.ltk);
     let sock = UdpSocket::bind("127.0.0.1:0").expect("bind responder");
+    let sock_any = UdpSocket::bind("0.0.0.0:0").expect("bind wildcard responder");
     let mut out = std::io::BufWriter::new(std::fs::File::create(out_path).expect("create trace"));
     let thorough = tier == "thorough";
     let mut runs = 0u64;
@@ -371,13 +387,17 @@ pub fn record(out_path: &str, client_bin: &str, seed: u64, tier: &str) {
                     let mut sub = Rng::new(rng.next_u64());
                     // the delegation window is any window containing the midpoint, including the tight ones
                     let (mint, maxt) = match (k + (midp % 7) as usize) % 4 { 0 => (0, u64::MAX), 1 => (midp, u64::MAX), 2 => (0, midp), _ => (midp, midp) };
-                    let run = run_client(client_bin, v, key_arg(&keys, keyopt), 1, &[], &sock, &mut |_, rq| {
+                    // output zone and server address vary from run to run: the printed instant must not
+                    let env_mode = (runs % 4) as usize;
+                    CLIENT_ENV_MODE.store(env_mode, std::sync::atomic::Ordering::Relaxed);
+                    let run = run_client(client_bin, v, key_arg(&keys, keyopt), 1, &[], if env_mode == 3 { &sock_any } else { &sock }, &mut |_, rq| {
                         let d = assemble(&honest_parts_win(v, rq, &keys, *i, *n, midp, mint, maxt, &mut sub));
                         let mut f = facts(v, &d, rq, &pinned); f["honest"] = json!(true); served.push(f);
                         Some(d)
                     });
+                    CLIENT_ENV_MODE.store(0, std::sync::atomic::Ordering::Relaxed);
                     for rq in &run.requests { if let Some(nn) = proto::request_nonce(rq) { nonces.push(nn); } }
-                    emit_run(&mut out, "honest", v, keyopt, &run, &served, &[expected_print(v, midp)], json!({"n": n, "i": i, "midp": midp.to_string()}));
+                    emit_run(&mut out, "honest", v, keyopt, &run, &served, &[expected_print(v, midp)], json!({"n": n, "i": i, "midp": midp.to_string(), "env_mode": env_mode}));
                     runs += 1;
                 }
             }
